@@ -449,6 +449,30 @@ func (g *goGen) call(e ECall, sc *goScope) goVal {
 			return g.bad("%s() (backing-array identity) cannot be replayed", name)
 		}
 	}
+	if purePkgs[pkg] {
+		// library function: called directly (the contract's uninterpreted function IS this function)
+		var as []string
+		for _, a := range args() {
+			c := a.code
+			if a.cls == "S" && a.goT != nil {
+				if b, ok := a.goT.Underlying().(*types.Basic); !ok || b.Info()&types.IsString == 0 {
+					c = "string(" + c + ")"
+				}
+			}
+			as = append(as, c)
+		}
+		g.imports[pkg] = pkg[strings.LastIndex(pkg, "/")+1:]
+		callee := pkg[strings.LastIndex(pkg, "/")+1:] + "." + name
+		switch pkg + "." + name {
+		case "strings.TrimSpace", "strings.ToLower", "strings.ToUpper", "strings.TrimPrefix", "strings.TrimSuffix":
+			return goVal{code: callee + "(" + strings.Join(as, ", ") + ")", cls: "S", elem: "I", goT: types.Typ[types.String]}
+		case "strings.Contains", "strings.HasPrefix", "strings.HasSuffix", "unicode.IsSpace":
+			return goVal{code: callee + "(" + strings.Join(as, ", ") + ")", cls: "B"}
+		case "strconv.Atoi":
+			return goVal{code: "func() int { v, _ := " + callee + "(" + strings.Join(as, ", ") + "); return v }()", cls: "I"}
+		}
+		return g.bad("library function %s.%s cannot be replayed", pkg, name)
+	}
 	if sf := g.p.Contracts.Specs[name]; sf != nil {
 		g.defineSpec(sf)
 		var as []string
